@@ -4,7 +4,10 @@
 #   2. N-version check of the substrate: the analyzer rebuilt with go1.26.8 + x/tools v0.50.0 must
 #      produce the identical obligation list and verdicts (a difference is a checker-integrity failure),
 #   3. the checker's own controls: overlay mutants that must make the targeted rule fire (reported in
-#      the evidence; they validate the checker, never the property).
+#      the evidence; they validate the checker, never the property),
+#   4. self-tests on overlays (tools/selftest.py): the stored behaviour-preserving refactorings of this
+#      property's code must leave its rules silent, and the stored seeded changes that still apply must
+#      be reported. /repo is never modified: patches are applied to scratch copies and overlaid.
 set -u
 cd "$(dirname "$0")"
 PROP="$1"
@@ -36,11 +39,18 @@ for v in tag; do
 done
 # 3. controls
 CTL=$(python3 tools/controls.py "$PROP" 8 2>/dev/null || echo '{"controls":[],"fired":0,"missed":0,"skipped":0}')
-python3 - "$EXTRA" "$NV" "$CTL" "$CFG" "${FAILS[@]:-}" <<'PY'
+# 4. self-tests on overlays
+SELF=$(python3 tools/selftest.py "$PROP" 2>/dev/null || echo '{"refactorings":{"silent":0,"alarmed":[],"stale":0},"seeded":{"caught":0,"missed":[],"declared_out_of_reach":[],"stale":0}}')
+python3 - "$EXTRA" "$NV" "$CTL" "$CFG" "$SELF" "${FAILS[@]:-}" <<'PY'
 import json, sys
-extra, nv, ctl, cfg = sys.argv[1], sys.argv[2], json.loads(sys.argv[3]), sys.argv[4]
-fails = [f for f in sys.argv[5:] if f]
-json.dump({"n_version_substrate": {"toolchains": ["go1.23.5 + x/tools v0.29.0", "go1.26.8 + x/tools v0.50.0"], "result": nv},
+extra, nv, ctl, cfg, selft = sys.argv[1], sys.argv[2], json.loads(sys.argv[3]), sys.argv[4], json.loads(sys.argv[5])
+fails = [f for f in sys.argv[6:] if f]
+for a in selft["refactorings"]["alarmed"]:
+    fails.append("false alarm on the behaviour-preserving refactoring refactors/%s: %s" % (a["patch"], a["first"]))
+for m in selft["seeded"]["missed"]:
+    fails.append("the stored seeded change seeded/%s is no longer reported by this property's check" % m)
+json.dump({"self_tests": selft,
+           "n_version_substrate": {"toolchains": ["go1.23.5 + x/tools v0.29.0", "go1.26.8 + x/tools v0.50.0"], "result": nv},
            "build_configurations": {"variants": ["default", "-tags verif"], "result": cfg},
            "checker_controls": ctl, "integrity_failures": fails}, open(extra, "w"), indent=1)
 PY
